@@ -189,6 +189,31 @@ Definition view_requests (d : domain) (ps : list prior) (constrained : bool) : o
   | UseQuasi => if constrained then None (* one-hot sampler, not modelled here *) else Some (quasi_requests d)
   end.
 
+(* ---- which sampler produces the suggestions of a whole SPE request (views/rest/spe_next_points.py: SPENextPoints.view,
+        create_spe_suggestions).  The view hands out RANDOM suggestions on three routes - the initialisation phase; many open
+        suggestions (`observation_count <= 1.7 * open_suggestion_count`); too little data for the Parzen estimator (the handler of
+        SPEInsufficientDataError) - and all three end in create_random_suggestions, i.e. in view_path.  The phase (C14's selector) and
+        whether the estimator could be formed (C16's split condition) are inputs. *)
+Inductive sampler := SPriors | SQuasi | SEstimator.
+Definition random_sampler {A} (priors : list A) (constrained : bool) : sampler :=
+  match view_path priors constrained with UsePriors => SPriors | UseQuasi => SQuasi end.
+Definition SPE_OPEN_SUGGESTION_RATIO_BOUND : Q := 17 # 10.
+Definition sample_randomly (obs open : Z) : bool := Qle_bool (inject_Z obs) (SPE_OPEN_SUGGESTION_RATIO_BOUND * inject_Z open).
+Definition spe_view_sampler {A} (priors : list A) (constrained init_phase : bool) (obs open : Z) (estimator_formed : bool) : sampler :=
+  if init_phase then random_sampler priors constrained                                    (* view(): phase == INITIALIZATION_PHASE *)
+  else if sample_randomly obs open || negb estimator_formed then random_sampler priors constrained
+  else SEstimator.
+(* views/rest/spe_search_next_points.py: SPESearchNextPoints.view - initilization_sequence, the exploitation phase (a fresh
+   SPENextPoints request on one of the constraint metrics), the explore / resolve phase (the search estimator is sampled) *)
+Inductive search_phase := SearchInit | SearchExploit | SearchResolve.
+Definition spe_search_view_sampler {A} (priors : list A) (constrained : bool) (ph : search_phase) (init_phase : bool) (obs open : Z)
+  (estimator_formed : bool) : sampler :=
+  match ph with
+  | SearchInit => random_sampler priors constrained
+  | SearchExploit => spe_view_sampler priors constrained init_phase obs open estimator_formed
+  | SearchResolve => SEstimator
+  end.
+
 (* the points generate_distinct_random_points returns: orc = what choice / randint returned, cols = the quasi-random
    columns (used only on the PRandom branch) *)
 Definition distinct_points (d : domain) (k : Z) (h : list point) (dp : Q) (orc : list Z) (cols : list (list Q))
